@@ -59,6 +59,7 @@ def register(reg):
         ("ValueError", "Exception"),
         ("UnicodeError", "ValueError"),
         ("UnicodeEncodeError", "UnicodeError"),
+        ("UnicodeDecodeError", "UnicodeError"),
         ("LookupError", "Exception"),
         ("KeyError", "LookupError"),
         ("IndexError", "LookupError"),
